@@ -4,7 +4,7 @@ from .. import algebra
 from .. import symex as SX
 from ..terms import sym, add, mul, sub, ZERO, ONE, fld, sel, num
 from .common import *
-from .C03 import Proxy
+from .common import Proxy, share
 from .C12 import DRV_OPAQUE
 
 TWO = num(2)
@@ -33,7 +33,7 @@ def check(ctx):
 
     # ---------------------------------------------------------------- R3 split formulas (C16)
     from . import C16
-    C16.check(Proxy(ctx, 'R3/C16.'))
+    share(ctx, 'C16', 'R3/C16.', None)
 
     # ---------------------------------------------------------------- R4/R5 allreduce_result
     fs = instances(p, 'hep::allreduce_result')
@@ -343,10 +343,10 @@ def check(ctx):
     for name in MPI_DRIVERS:
         for d in instances(p, name):
             ctx.guard('R7/driver', fsite(d), lambda d=d, name=name: C12.driver_shape(Proxy(ctx, 'R7/C12.'), d, name))
-    C19.check(Proxy(ctx, 'R6/C19.', only=['R4.']))
+    share(ctx, 'C19', 'R6/C19.', ['R4.'])
     from . import C10
-    C10.check(Proxy(ctx, 'R2/C10.', only=['R1.', 'R2.', 'R3.']))
-    C12.check(Proxy(ctx, 'R4/C12.', only=['R4.mpi_same_decision']))
+    share(ctx, 'C10', 'R2/C10.', ['R1.', 'R2.', 'R3.'])
+    share(ctx, 'C12', 'R4/C12.', ['R4.mpi_same_decision'])
 
 
 def _inside_size(whole, t):
